@@ -27,7 +27,9 @@ theorem loadZarrSubset_eq {α} (z : ZArr α) (idx : Option (List Nat)) :
   | none => rfl
   | some is =>
     cases is with
-    | nil => simp [Gen.BaseRead.loadZarrSubset, Geff.PRead.loadZarrSubset, packRows, npEmpty, ZArr.shape, bind, Except.bind, pure, Except.pure, Except.map]
+    | nil =>
+      -- with or without the explicit empty-selection case of the source: `oindex` of no indices is no rows
+      simp [Gen.BaseRead.loadZarrSubset, Geff.PRead.loadZarrSubset, packRows, npEmpty, oindex, npAsarray, ZArr.shape, bind, Except.bind, pure, Except.pure, Except.map]
     | cons i t =>
       simp only [Gen.BaseRead.loadZarrSubset, Geff.PRead.loadZarrSubset, packRows, oindex, npAsarray]
       generalize (List.mapM _ (i :: t) : Res (List α)) = X
